@@ -1,6 +1,6 @@
 SPECIFICATION Spec
 CONSTANTS
-  Scenarios <- QuickScenarios3
+  Scenarios <- SelfTestScenarios2
   ResetBody = FALSE
   RefreshScrollId = TRUE
   DefaultPageSize = TRUE
